@@ -7,6 +7,8 @@ note's sequence number is aimed at a boundary of a guard of handleNoteBroadcast 
 from the model's own marks (DESIGN.md 4.1).  The distribution (note kind x position of
 seq relative to read/recv/lastID x outcome) is measured on the IMPLEMENTATION's trace and
 written to the evidence."""
+import json
+
 from props import statelib
 from props import topiclib as T
 from props.statelib import eff, kvs, View
@@ -478,8 +480,68 @@ def line_f(kind, l):
     return None
 
 
+def relay_audience(ctx):
+    """Clause 'relayed notifications reach only attached sessions of users with read permission - never the
+    originating session, never channel readers, typing notes never any session of the typist': the group-topic
+    model of Sys/Topic.v has no channel subscriptions, so this clause is judged on the fan-out slice built for C02
+    (coq/Sys/Fanout.v info_fanout; theorems re-stated in PropC09.v as c09_relay_*): the same driver
+    (zz_verif_c02_test.go: grp / channel-enabled grp / p2p topics with note ops), the same extracted model, and the
+    info-* laws of tools/props/c02.py evaluated on the IMPLEMENTATION's frames."""
+    from props import c02
+    if ctx.replay:
+        rp = json.load(open(ctx.replay))
+        if not (isinstance(rp.get("replay"), dict) and rp["replay"].get("relay_part")):
+            return
+        scns = [c02.Scn.from_replay(rp["replay"]["scenario"], "replay")]
+    else:
+        scns = [c02.mk(*c, sid="c%d" % i) for i, c in enumerate(c02.CORPUS)]
+        scns += c02.gen_scenarios(ctx, 110 if ctx.tier == "quick" else 2000, prefix="r")
+    rc, impl, log = c02.run_impl(ctx, scns, tag="relay")
+    bad = next((sc for sc in scns if sc.id not in impl or len(impl[sc.id]) != len(sc.ops)), None)
+    if rc != 0 or bad is not None:
+        ctx.violation("monitor", "server-crashed", "the server process died or stopped answering in the relay-audience part (scenario %s): %s"
+                      % (bad.id if bad else "?", log[-1200:]), {"relay_part": True, "scenario": bad.replay() if bad else {}})
+        return
+    rc, model, err = c02.run_model(ctx, scns)
+    seen = {}
+    notes = 0
+    for sc in scns:
+        notes += sum(1 for o in sc.ops if o[0] == "note")
+        for law, k, detail in c02.monitor(sc, impl[sc.id]):
+            if law.startswith("info-"):
+                seen.setdefault(law, []).append((sc, k, detail))
+    known = {f["key"] for f in ctx.load_findings() if f["property"] == "C02"}
+    for law, lst in seen.items():
+        if law in known:
+            continue       # a defect recorded under C02 with exactly this law name
+        sc, k, detail = min(lst, key=lambda x: len(x[0].ops))
+        small = sc.clone(sc.ops[:k + 1]) if hasattr(sc, "clone") else sc
+        ctx.violation("monitor", law, "law %s fails on the implementation's note relays (%d scenarios): %s" % (law, len(lst), detail),
+                      {"relay_part": True, "scenario": small.replay(), "law": law, "detail": detail})
+    mism = 0
+    if rc == 0:
+        for sc in scns:
+            mo = model.get(sc.id, [])
+            for k, o in enumerate(sc.ops):
+                if o[0] == "note" and k < len(mo) and k < len(impl[sc.id]):
+                    d = c02.diff_op(sc, k, impl[sc.id][k], mo[k])
+                    if d:
+                        mism += 1
+                        if not seen:
+                            ctx.violation("corr", "correspondence-relay", "fan-out model and implementation disagree on a note relay: op %d %s: %s"
+                                          % (k, o, json.dumps(d, default=str)[:600]), {"correspondence": "note relay audience (Fanout.v info_fanout)",
+                                                                                       "relay_part": True, "scenario": sc.replay()})
+                        break
+    ctx.coverage["relay_audience"] = {"scenarios": len(scns), "note_requests": notes, "law_failures": sum(len(v) for v in seen.values()),
+                                      "correspondence_mismatches": mism}
+
+
 def run(ctx):
     quick = ctx.tier == "quick"
+    ok, _ = ctx.build_runner()
+    ok2, _ = ctx.build_main()
+    if ok and ok2:
+        relay_audience(ctx)
 
     def guided(ctx, total):
         return gen_guided(ctx, 110 if quick else 1500)
